@@ -946,15 +946,16 @@ order inside a cache, `getattr(self, f.__name__)`, the foreign-decorator rule) i
 for EVERY interface name; for the empty name the decorator table is searched without regard to the
 interface the functions name: the first class of the chain that decorates a function for the
 member, its interfaces in the order its body first mentions them, the last function for the first
-such interface that has one. -/
+such interface that has one.  "Mentions": by a decorated function OR by a `DBusProperty` attribute
+(`Class.propKeys`: `_cacheInterfaces` creates the cache entry of a property's interface too). -/
 theorem empty_interface_name_binding (o : Obj) (iname member : Str) :
     resolveImpl o iname member = bound o iname member ∧
     decorated o [] member =
-      (o.classes.findSome? fun c => decoratedAnyIn c.attrs member).bind (attr o) := by
+      (o.classes.findSome? fun c => decoratedAnyIn c member).bind (attr o) := by
   refine ⟨resolveImpl_eq o iname member, ?_⟩
   unfold decorated decoratedName
   simp only [ne_eq, not_true_eq_false, if_false]
-  cases o.classes.findSome? (fun c => decoratedAnyIn c.attrs member) <;> rfl
+  cases o.classes.findSome? (fun c => decoratedAnyIn c member) <;> rfl
 
 namespace Example
 
@@ -976,6 +977,30 @@ theorem empty_name_witness :
       [.call { Example.call with iface := none } (fun _ => .value (.single 7))]).2) = [(3, [], none)] ∧
     bound Example.namelessObj [] "one".toList =
       some { id := 3, deco := some ("org.x".toList, "one".toList), params := ["self".toList] } := by
+  decide
+
+namespace Example
+
+/-- the reviewer's probe: `dbusInterfaces = [DBusInterface('', Method('one','','s')), DBusInterface('org.x',
+Property('p','s'))]`, body: `f1 @dbusMethod('org.b','one')`, `f2 @dbusMethod('org.x','one')`, and
+`p = DBusProperty('p','org.x')` standing BEFORE the functions (`propKeys := [(0, org.x)]`) or after them (`[(2, org.x)]`) -/
+def probeObj (pos : Nat) : Obj :=
+  { classes := [{ ifaces := some [{ name := [], methods := [("one".toList, { name := "one".toList, sigIn := [], sigOut := ['s'], nret := 1 })] },
+                                  { name := "org.x".toList, methods := [] }],
+                  attrs := [("f1".toList, { id := 1, deco := some ("org.b".toList, "one".toList), params := ["self".toList] }),
+                            ("f2".toList, { id := 2, deco := some ("org.x".toList, "one".toList), params := ["self".toList] })],
+                  propKeys := [(pos, "org.x".toList)] }] }
+
+end Example
+
+/-- Witness (decide; run on the real code by the reviewer and by corpus/C10/nameless-interface-property-order.json):
+a `DBusProperty` creates the cache entry of its interface, so its place in the class body decides which
+interface the nameless lookup meets first: property before the functions -> `f2` (decorated for the
+property's interface `org.x`) runs; property after them -> `f1`. -/
+theorem property_key_order_witness :
+    bound (Example.probeObj 0) [] "one".toList = some { id := 2, deco := some ("org.x".toList, "one".toList), params := ["self".toList] } ∧
+    bound (Example.probeObj 2) [] "one".toList = some { id := 1, deco := some ("org.b".toList, "one".toList), params := ["self".toList] } ∧
+    resolveImpl (Example.probeObj 0) [] "one".toList = bound (Example.probeObj 0) [] "one".toList := by
   decide
 
 /-! ## 7. The hypotheses are satisfiable -/
@@ -1052,6 +1077,7 @@ end Txdbus.Obj
 #print axioms Txdbus.Obj.properties_witness
 #print axioms Txdbus.Obj.empty_interface_name_binding
 #print axioms Txdbus.Obj.empty_name_witness
+#print axioms Txdbus.Obj.property_key_order_witness
 #print axioms Txdbus.Obj.result_encoding
 #print axioms Txdbus.Obj.unencodable_value_one_error
 #print axioms Txdbus.Obj.error_reply_name
